@@ -203,6 +203,10 @@ def resolveAll (cfg : Cfg) (fuel : Nat) (s : State) (pend : List (PAct × Option
           if resOk && evOk && n ≤ evs.length then
             for r in resolveAll cfg fuel s' (removeNth pend i) (evs.drop n) do
               if !(acc.any (sameModStats r)) && acc.length < 16 then acc := acc ++ [r]
+            -- many pending completions (a bulk load of a hundred keys): the orders are not enumerated - the first action that
+            -- is consistent here is taken and never revised (completions of distinct keys commute; what is accepted has an
+            -- explanation in any case; the generators produce such operations for unbounded caches only)
+            if pend.length > 6 then break
       return acc
     -- option 2: the next observed event is an automatic removal
     let viaEvict : List State :=
@@ -279,6 +283,8 @@ structure CS where
   sawNestedWrite : Bool := false     -- a write was executed from inside a loader (C09 scenarios)
   dirty : List Nat := []             -- deferred executor: keys written since maintenance last ran
   k1risk : Bool := false             -- deferred executor: a key was rewritten before its first write event was replayed
+  /-- failures that do not stop the script (the driver reports them and goes on judging the rest) -/
+  soft : List String := []
   deriving Repr, Inhabited
 
 abbrev M := ExceptT String (StateM CS)
@@ -469,7 +475,20 @@ def simpleOp (l : Line) : M Unit := do
         | _ => false
       if builtin && !c.deferred then
         match s.m.find? (fun p => p.2.exp + 1073741824 < s.now) with
-        | some p => fail s!"C13: after CleanUp at {s.now} key {p.1} (deadline {p.2.exp}, {s.now - p.2.exp} ns ago) is still physically present and its Expiration event has not been delivered"
+        | some p => modify fun c => { c with soft := c.soft ++ [s!"C13: after CleanUp at {s.now} key {p.1} (deadline {p.2.exp}, {s.now - p.2.exp} ns ago) is still physically present and its Expiration event has not been delivered"] }
+        | none => pure ()
+  | ["settle"] =>
+      -- three further maintenance runs, two timer ticks apart (C06: every value that stopped being current has been reported)
+      setS (advance c.s (3 * 2147483648))
+      maintenanceRan; resolveOrFail [] atomics "settle"
+      let s ← getS
+      let builtin := match cfg.expiry with
+        | .creating _ | .writing _ | .accessing _ => true
+        | .custom => decide (cfg.expRead.dflt ≤ 0) && cfg.expRead.ents.all (fun p => decide (p.2 ≤ 0))
+        | _ => false
+      if builtin && !c.deferred then
+        match s.m.find? (fun p => p.2.exp + 1073741824 < s.now) with
+        | some p => fail s!"C06: value {p.2.val} of key {p.1} expired {s.now - p.2.exp} ns ago and has not been reported: three maintenance runs two timer ticks apart have passed since (values written ≠ values present + values reported)"
         | none => pure ()
   | ["iteradv", what, d] =>
       -- an iteration during which the clock jumps by d after the first element: the first element is live at the start,
